@@ -256,23 +256,34 @@ impl<P: RuntimeProvider + Send + Sync> SqliteZoneHandler<P> {
 
             info!("persisting zone to journal at SOA.serial: {serial}");
 
-            // TODO: THIS NEEDS TO BE IN A TRANSACTION!!!
-            journal.insert_record(
-                serial,
-                &Record::update0(Name::new(), 0, RecordType::AXFR).into_record_of_rdata(),
-            )?;
-
-            for rr_set in self.in_memory.records().await.values() {
-                // TODO: should we preserve rr_sets or not?
-                for record in rr_set.records_without_rrsigs() {
-                    journal.insert_record(serial, record)?;
-
-                    #[cfg(feature = "metrics")]
-                    self.metrics.zone_records.increment(1);
-                }
+            // the dump is one transaction: a journal holding only part of it would be
+            // recovered into a truncated zone at the next start
+            journal.begin()?;
+            let records = self.in_memory.records().await;
+            let dumped = journal
+                .insert_record(
+                    serial,
+                    &Record::update0(Name::new(), 0, RecordType::AXFR).into_record_of_rdata(),
+                )
+                .and_then(|()| {
+                    // TODO: should we preserve rr_sets or not?
+                    records
+                        .values()
+                        .flat_map(|rr_set| rr_set.records_without_rrsigs())
+                        .try_for_each(|record| journal.insert_record(serial, record))
+                });
+            if let Err(error) = dumped {
+                let _ = journal.rollback();
+                return Err(error);
             }
+            journal.commit()?;
 
-            // TODO: COMMIT THE TRANSACTION!!!
+            #[cfg(feature = "metrics")]
+            for rr_set in records.values() {
+                self.metrics
+                    .zone_records
+                    .increment(rr_set.records_without_rrsigs().count() as u64);
+            }
         }
 
         Ok(())
@@ -722,12 +733,48 @@ impl<P: RuntimeProvider + Send + Sync> SqliteZoneHandler<P> {
         records: &[Record],
         auto_signing_and_increment: bool,
     ) -> Result<bool, ResponseCode> {
+        // Everything one update writes to the journal (its records and the post-update SOA
+        // record) is a single transaction, so that a journal never holds part of an update.
+        let journal_guard = self.journal.lock().await;
+        let journal = journal_guard.as_ref();
+        if let Some(journal) = journal {
+            if let Err(error) = journal.begin() {
+                error!("could not start journal transaction: {error}");
+                return Err(ResponseCode::ServFail);
+            }
+        }
+
+        let result = self
+            .update_records_journaled(records, auto_signing_and_increment, journal)
+            .await;
+
+        if let Some(journal) = journal {
+            let finished = match &result {
+                Ok(_) => journal.commit(),
+                Err(_) => journal.rollback(),
+            };
+            if let Err(error) = finished {
+                error!("could not finish journal transaction: {error}");
+                let _ = journal.rollback();
+                return Err(ResponseCode::ServFail);
+            }
+        }
+
+        result
+    }
+
+    async fn update_records_journaled(
+        &self,
+        records: &[Record],
+        auto_signing_and_increment: bool,
+        journal: Option<&Journal>,
+    ) -> Result<bool, ResponseCode> {
         let mut updated = false;
         let serial: u32 = self.in_memory.serial().await;
 
         // the persistence act as a write-ahead log. The WAL will also be used for recovery of a zone
         //  subsequent to a failure of the server.
-        if let Some(journal) = &*self.journal.lock().await {
+        if let Some(journal) = journal {
             if let Err(error) = journal.insert_records(serial, records) {
                 error!("could not persist update records: {error}");
                 return Err(ResponseCode::ServFail);
@@ -961,8 +1008,7 @@ impl<P: RuntimeProvider + Send + Sync> SqliteZoneHandler<P> {
             return Err(ResponseCode::ServFail);
         };
 
-        let journal_guard = self.journal.lock().await;
-        let Some(journal) = journal_guard.as_ref() else {
+        let Some(journal) = journal else {
             return Ok(updated);
         };
 
